@@ -12,6 +12,11 @@
           `ModuleData::extend`/`TypeMap`, every query kind for every class (pair) through the public API;
           compared with the model (kind=model, exact answers incl. BFS-order dependent owners and errors) and
           with the specification (kind=spec).
+  Members with types (section "which declaration decides", model QV.Model.ClassGraph.Typed, specification
+  QV.Spec.GraphMembers): the same name declared at several levels, each declaration resolvable or not — the
+  unhidden declaration decides (`…_decided`), the class's own declaration first (`own_…_declaration_decides`),
+  an unresolvable declaration is an error and never falls through to an ancestor
+  (`unresolvable_own_…_is_error`), on a chain the nearest declaring class decides (`unique_decider_decides`).
 
   For every table: all queries terminate; a positive "derives from", a member that is found, a common base
   and an enum found by variant are always *right* (sound).  For tables in which no unresolved super-class
@@ -22,6 +27,7 @@
 -/
 import QV.Proofs.ClassGraph
 import QV.Proofs.ClassGraphRepaired
+import QV.Proofs.ClassGraphTyped
 
 namespace QV.Props.C17
 open QV.Model.ClassGraph QV.Spec.Graph QV.Proofs.ClassGraph
@@ -567,5 +573,254 @@ example : Repaired.isDerivedFrom tableF10 cF10 baseF10 = true ∧ Repaired.getPr
     Repaired.getProperty { classes := [ownF10] } ownF10 "p" = .found ownF10 := by decide
 
 end repaired
+
+/-! ### which declaration decides (members with types)
+
+  QV.Model.ClassGraph.Typed adds the member types the fragment above fixes to `int`/`void`.  A declaration
+  whose type names do not resolve in the scope of the declaring class is an `Err`, and the search returns the
+  answer — `Ok` or `Err` — of the first class that declares the name.  Stated against the specification
+  (QV.Spec.GraphMembers): the answer is that of a class that `Decides` — it declares the name and is reached
+  without passing another class that declares it; if the queried class declares the name, that is the class
+  itself.  An unresolvable declaration therefore never falls through to an ancestor.  (An unresolved SUPER
+  CLASS is different: it is skipped, and reported only if no class declares the name — F10.) -/
+section typed
+open QV.Model.ClassGraph.Typed QV.Proofs.ClassGraph.Typed
+
+/-- what the property says about the look-up of one member name; `P x`: the class named `x` declares the name,
+    `f d`: what the declaration of class `d` amounts to (`found`, or the error of its types) -/
+structure DecidedBy {α : Type} (t : Table) (c : Name) (cls : ClassDecl) (P : String → Bool)
+    (f : ClassDecl → Lookup α) (res : Lookup α) : Prop where
+  /-- the class's own declaration, resolvable or not, is the answer -/
+  own_first : P c = true → res = f cls
+  /-- the answer is that of a declaring class that is not hidden; if nobody declares the name: "not found", or
+      the deferred error of an unresolved super class -/
+  decided :
+    (∃ d, lookupClass t.classes d.name = some d ∧ Decides (toGraph t) P c d.name ∧ f d ≠ .notFound ∧ res = f d) ∨
+    ((∀ a, Derives (toGraph t) c a → P a = false) ∧
+      (res = .notFound ∨ ∃ e, res = .error e ∧ DanglingFrom (toGraph t) c))
+
+/-- **The unhidden declaration decides** — for every table (cycles, diamonds, dangling names included) and every
+    per-class look-up `f` that answers exactly on the classes declaring the name. -/
+theorem search_decided {α : Type} {t : Table} {f : ClassDecl → Lookup α} {P : String → Bool}
+    (hP : ∀ x, lookupClass t.classes x.name = some x → (f x = .notFound ↔ P x.name = false))
+    {c : Name} {self : ClassDecl} (hc : lookupClass t.classes c = some self) :
+    DecidedBy t c self P f (Repaired.findMapSelfAndBaseClasses t self f) := by
+  have hself := lookupClass_self hc
+  have hname := lookupClass_name hc
+  have hans : ∀ x, lookupClass t.classes x.name = some x → (f x ≠ .notFound ↔ P x.name = true) := by
+    intro x hx
+    have := hP x hx
+    cases hpx : P x.name with
+    | true => rw [hpx] at this; simp only [Bool.true_eq_false, iff_false] at this; simp [this]
+    | false => rw [hpx] at this; simp [this.mpr rfl]
+  refine ⟨fun hp => ?_, ?_⟩
+  · apply fmsb_own
+    rw [← hname] at hp
+    exact (hans self hself).mpr hp
+  · rcases fmsb_decider t self f with ⟨d, hu, hfd, hres⟩ | ⟨hall, hres⟩
+    · have hd := reach_handle hu.reach hself
+      have hder := unhidden_derives_cut (P := P) hP hself hu
+      rw [hname] at hder
+      exact .inl ⟨d, hd, ⟨hder, (hans d hd).mp hfd⟩, hfd, hres⟩
+    · refine .inr ⟨fun a ha => ?_, ?_⟩
+      · obtain ⟨b, hb, hr⟩ := derives_reach ha self hc
+        have := (hP b (lookupClass_self hb)).mp (hall b hr)
+        rwa [lookupClass_name hb] at this
+      · rcases hres with h | ⟨e, h1, h2⟩
+        · exact .inl h
+        · exact .inr ⟨e, h1, (base_classes_errors hc).mp ⟨e, h2⟩⟩
+
+/-- **On a chain the nearest declaring class decides**: when only one class can decide (single inheritance
+    above the queried class, or the class declares the name itself) the answer is exactly that class's. -/
+theorem unique_decider_decides {α : Type} {t : Table} {c : Name} {self : ClassDecl} {P : String → Bool}
+    {f : ClassDecl → Lookup α} {res : Lookup α} (h : DecidedBy t c self P f res)
+    (huniq : ∀ a b, Decides (toGraph t) P c a → Decides (toGraph t) P c b → a = b)
+    {d : ClassDecl} (hd : lookupClass t.classes d.name = some d) (hdec : Decides (toGraph t) P c d.name) :
+    res = f d := by
+  rcases h.decided with ⟨d', hd', hdec', _, hres⟩ | ⟨hnone, _⟩
+  · have := handle_eq_of_name_eq hd' hd (huniq _ _ hdec' hdec)
+    rw [← this]; exact hres
+  · have := hnone d.name (derives_of_cut hdec.1)
+    rw [hdec.2] at this; cases this
+
+/-- the class named `x` declares a property `p` -/
+def declaresPropB (t : TableT) (p : Name) (x : String) : Bool :=
+  match lookupClassT t.classes x with
+  | some d => (lookupProp d.props p).isSome
+  | none => false
+
+/-- the class named `x` declares a public signal, slot or method `m` -/
+def declaresMethodB (t : TableT) (m : Name) (x : String) : Bool :=
+  match lookupClassT t.classes x with
+  | some d => !(methodSlice (methodTableT d) m).isEmpty
+  | none => false
+
+private theorem propAt_iff {t : TableT} (p : Name) (x : ClassDecl) (hx : lookupClass t.erase.classes x.name = some x) :
+    propAt t x p = .notFound ↔ declaresPropB t p x.name = false := by
+  obtain ⟨d, hd, _⟩ := handle_typed hx
+  unfold propAt declaresPropB
+  rw [hd]
+  simp only
+  cases lookupProp d.props p with
+  | none => simp
+  | some pd =>
+    simp only [Option.isSome_some, Bool.true_eq_false, iff_false]
+    cases resolveTypeExpr t.erase x pd.ty <;> simp
+
+private theorem methodAt_iff {t : TableT} (m : Name) (x : ClassDecl) (hx : lookupClass t.erase.classes x.name = some x) :
+    methodAt t x m = .notFound ↔ declaresMethodB t m x.name = false := by
+  obtain ⟨d, hd, _⟩ := handle_typed hx
+  unfold methodAt declaresMethodB
+  rw [hd]
+  simp only
+  cases methodSlice (methodTableT d) m with
+  | nil => simp
+  | cons y ys =>
+    simp only [List.isEmpty_cons, Bool.not_false, Bool.true_eq_false, iff_false]
+    cases resolveAll t.erase x ((y :: ys).flatMap methodTypes) <;> simp
+
+/-- **Properties**: the look-up is decided by an unhidden declaration of the name; its answer is that class
+    (`propAt_found`) or the error of the declared type. -/
+theorem property_decided {t : TableT} {c : Name} {self : ClassDecl} (hc : lookupClass t.erase.classes c = some self)
+    (p : Name) :
+    DecidedBy t.erase c self (declaresPropB t p) (fun d => propAt t d p) (Typed.getProperty t self p) :=
+  search_decided (propAt_iff p) hc
+
+/-- **Methods** (signals, slots, invokable methods; all overloads of the name of ONE class): the look-up is decided
+    by an unhidden class declaring the name; the answer is that class's overloads in declaration order
+    (`methodAt_found`, `methodSlice_methodTableT`) or the first error among their types — one overload that does not
+    resolve fails the name. -/
+theorem method_decided {t : TableT} {c : Name} {self : ClassDecl} (hc : lookupClass t.erase.classes c = some self)
+    (m : Name) :
+    DecidedBy t.erase c self (declaresMethodB t m) (fun d => methodAt t d m) (Typed.getPublicMethod t self m) :=
+  search_decided (methodAt_iff m) hc
+
+/-- **Own declaration first, resolvable or not**: when the class declares the property itself, the answer is the
+    class — or the error of ITS declaration's type; no ancestor is consulted. -/
+theorem own_property_declaration_decides {t : TableT} {c : Name} {d : ClassDeclT} {pd : PropDecl}
+    (hd : lookupClassT t.classes c = some d) (p : Name) (hp : lookupProp d.props p = some pd) :
+    Typed.getProperty t d.erase p =
+      (match resolveTypeExpr t.erase d.erase pd.ty with
+       | .ok _ => .found d.erase
+       | .error e => .error e) := by
+  have hh := typed_handle hd
+  have hn : d.erase.name = c := by rw [erase_name]; exact lookupClassT_name hd
+  have hc : lookupClass t.erase.classes c = some d.erase := by rw [← hn]; exact hh
+  have hd' : lookupClassT t.classes d.erase.name = some d := by rw [hn]; exact hd
+  have hown := (property_decided hc p).own_first (by simp [declaresPropB, hd, hp])
+  rw [hown]
+  show propAt t d.erase p = _
+  unfold propAt
+  rw [hd']
+  simp only [hp]
+  rfl
+
+/-- **No silent fall-through**: an own declaration whose type does not resolve is an error — whatever the base
+    classes declare. -/
+theorem unresolvable_own_property_is_error {t : TableT} {c : Name} {d : ClassDeclT} {pd : PropDecl} {e : TypeMapError}
+    (hd : lookupClassT t.classes c = some d) (p : Name) (hp : lookupProp d.props p = some pd)
+    (he : resolveTypeExpr t.erase d.erase pd.ty = .error e) :
+    Typed.getProperty t d.erase p = .error e := by
+  rw [own_property_declaration_decides hd p hp, he]
+
+theorem own_method_declaration_decides {t : TableT} {c : Name} {d : ClassDeclT}
+    (hd : lookupClassT t.classes c = some d) (m : Name) (hm : methodSlice (methodTableT d) m ≠ []) :
+    Typed.getPublicMethod t d.erase m =
+      (match resolveAll t.erase d.erase ((methodSlice (methodTableT d) m).flatMap methodTypes) with
+       | .ok _ => .found (d.erase, methodSlice (methodTableT d) m)
+       | .error e => .error e) := by
+  have hh := typed_handle hd
+  have hn : d.erase.name = c := by rw [erase_name]; exact lookupClassT_name hd
+  have hc : lookupClass t.erase.classes c = some d.erase := by rw [← hn]; exact hh
+  have hd' : lookupClassT t.classes d.erase.name = some d := by rw [hn]; exact hd
+  have hdecl : declaresMethodB t m c = true := by
+    unfold declaresMethodB
+    rw [hd]
+    show (!(methodSlice (methodTableT d) m).isEmpty) = true
+    cases hs : methodSlice (methodTableT d) m with
+    | nil => exact absurd hs hm
+    | cons _ _ => rfl
+  have hown := (method_decided hc m).own_first hdecl
+  rw [hown]
+  show methodAt t d.erase m = _
+  unfold methodAt
+  rw [hd']
+  show (match methodSlice (methodTableT d) m with
+    | [] => Lookup.notFound
+    | ms => match resolveAll t.erase d.erase (ms.flatMap methodTypes) with
+      | .ok _ => Lookup.found (d.erase, ms)
+      | .error e => Lookup.error e) = _
+  cases hs : methodSlice (methodTableT d) m with
+  | nil => exact absurd hs hm
+  | cons y ys => rfl
+
+/-- one overload whose return or argument type does not resolve fails the class's own method name — the base
+    classes' methods of that name are not consulted -/
+theorem unresolvable_own_method_is_error {t : TableT} {c : Name} {d : ClassDeclT} {e : TypeMapError}
+    (hd : lookupClassT t.classes c = some d) (m : Name) (hm : methodSlice (methodTableT d) m ≠ [])
+    (he : resolveAll t.erase d.erase ((methodSlice (methodTableT d) m).flatMap methodTypes) = .error e) :
+    Typed.getPublicMethod t d.erase m = .error e := by
+  rw [own_method_declaration_decides hd m hm, he]
+
+/-- **Enumerators and nested enums** never fail to resolve: the unhidden enum that lists the variant / has the name
+    is found (`getEnumByVariantNoSuper`, `getTypeNoSuper` answer `found` or `notFound` only). -/
+theorem variant_decided {t : Table} {c : Name} {self : ClassDecl} (hc : lookupClass t.classes c = some self) (v : Name) :
+    DecidedBy t c self (fun x => match lookupClass t.classes x with
+        | some d => (lookupEnumByVariant d.enums v).isSome
+        | none => false)
+      (fun d => getEnumByVariantNoSuper d v) (Repaired.getEnumByVariant t self v) := by
+  refine search_decided (fun x hx => ?_) hc
+  rw [hx]
+  show _ ↔ (lookupEnumByVariant x.enums v).isSome = false
+  unfold getEnumByVariantNoSuper
+  cases lookupEnumByVariant x.enums v <;> simp
+
+/-- the typed model extends the untyped one: the default member types always resolve -/
+theorem default_types_resolve (t : Table) (d : ClassDecl) :
+    resolveTypeExpr t d .int = .ok () ∧ resolveTypeExpr t d .void = .ok () :=
+  ⟨resolve_int t d, resolve_void t d⟩
+
+/-- **The typed model extends the untyped one**: on a table whose properties all have the default type the typed
+    look-up is `Repaired.getProperty` on the table with the types forgotten — so `property_lookup_repaired` and the
+    other theorems above speak about what the driver's `cg` answers (methods: tied by the stream, every untyped
+    request is answered by the typed model). -/
+theorem typed_property_extends_untyped {t : TableT} (hdef : DefaultPropTypes t) {c : Name} {self : ClassDecl}
+    (hc : lookupClass t.erase.classes c = some self) (p : Name) :
+    Typed.getProperty t self p = Repaired.getProperty t.erase self p :=
+  getProperty_default hdef (lookupClass_self hc) p
+
+/-! witnesses (the shapes the seeded change C17/4 was demonstrated on) -/
+
+def baseMeter : ClassDeclT := { name := "BaseMeter", props := [{ name := "level" }], slots := [{ name := "update" }] }
+def fancyMeter : ClassDeclT :=
+  { name := "FancyMeter", supers := [("BaseMeter", true)],
+    props := [{ name := "level", ty := .named "LevelSpec" ["LevelSpec"] }],
+    slots := [{ name := "update", args := [.named "QModelIndex" ["QModelIndex"]] }] }
+def plainMeter : ClassDeclT := { name := "PlainMeter", supers := [("FancyMeter", true)] }
+def meters : TableT := { classes := [baseMeter, fancyMeter, plainMeter] }
+
+/-- own unresolvable declaration: an error, although the base class declares the same name resolvably -/
+example : Typed.getProperty meters fancyMeter.erase "level" = .error (.invalidTypeRef "LevelSpec") ∧
+    Typed.getPublicMethod meters fancyMeter.erase "update" = .error (.invalidTypeRef "QModelIndex") := by decide
+/-- … and the nearest (unresolvable) declaration decides for a class further down -/
+example : Typed.getProperty meters plainMeter.erase "level" = .error (.invalidTypeRef "LevelSpec") ∧
+    Typed.getProperty meters baseMeter.erase "level" = .found baseMeter.erase := by decide
+/-- a nested enum of a base class is a resolvable member type in the derived class; a scoped name must name a
+    nested type of the class it is scoped by; unknown decorations are an error of their own -/
+def scopeA : ClassDeclT := { name := "A", enums := [{ name := "E", variants := ["V"] }] }
+def scopeB : ClassDeclT :=
+  { name := "B", supers := [("A", true)],
+    props := [{ name := "e", ty := .named "E" ["E"] }, { name := "q", ty := .named "A::E" ["A", "E"] },
+              { name := "x", ty := .named "A::X" ["A", "X"] }, { name := "l", ty := .list (.named "B" ["B"]) },
+              { name := "u", ty := .unsupported "QMap<int,int>" }] }
+def scopes : TableT := { classes := [scopeA, scopeB] }
+example :
+    Typed.getProperty scopes scopeB.erase "e" = .found scopeB.erase ∧
+    Typed.getProperty scopes scopeB.erase "q" = .found scopeB.erase ∧
+    Typed.getProperty scopes scopeB.erase "x" = .error (.invalidTypeRef "A::X") ∧
+    Typed.getProperty scopes scopeB.erase "l" = .found scopeB.erase ∧
+    Typed.getProperty scopes scopeB.erase "u" = .error (.unsupportedDecoration "QMap<int,int>") := by decide
+
+end typed
 
 end QV.Props.C17
